@@ -556,25 +556,19 @@ static tOpcodeList const OpcodeList[256] = {
 static tOpcodeList const DummyOpcode = {eUnknown, 0, 0, NULL};
 
 static Boolean RetrieveData(LargeWord Address, Byte* pBuffer, unsigned Count) {
-    LargeWord Trans;
+    /* the address space ends at $ffff, and the code area [Address, Address + CodeLen)
+       is listed without wrapping: an operand does not continue at address 0, the
+       instruction is cut like one at the end of the loaded image */
 
-    while (Count > 0) {
-        Trans = 0x10000 - Address;
-        if (Count < Trans) {
-            Trans = Count;
-        }
-        if (!RetrieveCodeFromChunkList(&CodeChunks, Address, pBuffer, Trans)) {
-            char NumString[50];
+    if ((Address + Count > 0x10000)
+        || !RetrieveCodeFromChunkList(&CodeChunks, Address, pBuffer, Count)) {
+        char NumString[50];
 
-            HexString(NumString, sizeof(NumString), Address, 0);
-            fprintf(stderr, "cannot retrieve instruction arg @ 0x%s\n", NumString);
-            return FALSE;
-        }
-        pBuffer += Trans;
-        Count -= Trans;
-        Address = (Address + Trans) & 0xffff;
-        nData += Trans;
+        HexString(NumString, sizeof(NumString), Address, 0);
+        fprintf(stderr, "cannot retrieve instruction arg @ 0x%s\n", NumString);
+        return FALSE;
     }
+    nData += Count;
     return TRUE;
 }
 
